@@ -2,6 +2,7 @@ import Driver.Proto
 import Gotree.Model.C09
 import Gotree.Model.C09Lit
 import Gotree.Model.C09Float
+import Gotree.Model.C09Items
 import Gotree.Spec.C09
 
 namespace Gotree.Driver.C09
@@ -54,7 +55,8 @@ def collTags (ts : List T) (c : Rat) : List String :=
   tagIf (c == 1) "strict" ++ tagIf (c == 1/2) "majority" ++
   tagIf (dom && inRange c && nt.any (fun s => C09S.freq ts s == c)) "tie-threshold" ++
   tagIf (dom && inRange c && nt.any (fun s => isSelected ts c s) && nt.any (fun s => !isSelected ts c s)) "nontrivial" ++
-  tagIf (ts.length == 1) "single-tree" ++ tagIf (ts.length ≥ 5) "many-trees"
+  tagIf (ts.length == 1) "single-tree" ++ tagIf (ts.length ≥ 5) "many-trees" ++
+  tagIf (decide ((index tm).length > 96)) "rehash"   -- the edge index (128 buckets, load factor 0.75) has been rehashed
 
 def baseCls (s : String) : String := (s.splitOn ":").headD ""
 
@@ -146,6 +148,45 @@ def judgeNonFinite (tagsIn : List String) (t : Thr) (ts : List T) (cls : String)
                 else ⟨.tie, tags, "model rejects (" ++ w ++ "), implementation: " ++ cls⟩
     | _ => ⟨.tie, tags, "model accepts a non-finite threshold, implementation: " ++ cls⟩
 
+/-- the items of a `C09.items` line: an α dump, or `!` + the escaped message of an error record -/
+def parseItems (s : String) : Option (List Item) :=
+  (splitTerm "|" s).mapM fun d =>
+    if d.startsWith "!" then (unescape (String.ofList (d.toList.drop 1))).map Item.bad
+    else (T.undump d).map Item.tree
+
+def itemTrees (items : List Item) : List T := items.filterMap fun | .tree t => some t | .bad _ => none
+
+/-- `Consensus` on a channel with error records (tree/algo.go:284-290; model `consensusItems`).
+    Oracle: a collection delivered with an error record must be rejected (`demandedItems`).
+    Tie: the class of the error — the first obstacle in channel order decides: `range`, then the error of a
+    tree in front of the first record (`taxa`), then the record's own error, returned as it is.
+    `consumed` (items taken from the channel) and `shape` (what cmd/consensus.go wrote) are compared too:
+    the first as a fidelity figure, the second as part of the tie. -/
+def judgeItems (kind : String) (c : Rat) (items : List Item) (cls consumed shape : String) : Verdict :=
+  let nbad := (items.filter Item.isBad).length
+  let pre := (splitItems items).1
+  let cli := kind.startsWith "cli"
+  let tags := [kind, "items", "bad-records-" ++ toString nbad] ++
+    tagIf (pre.isEmpty) "bad-first" ++ tagIf (pre.length == (itemTrees items).length) "bad-last" ++
+    tagIf (!pre.isEmpty && pre.length != (itemTrees items).length) "bad-middle"
+  let icls := baseCls cls
+  if demandedItems (itemTrees items) true c == some false && icls != "err" then
+    ⟨.oracle, tags, "a collection delivered with an error record (unreadable tree) is not rejected: " ++ cls⟩
+  else
+    let drain := if cli then [] else
+      [if consumed.toNat? == some (consumedItems items c) then "drain-exact" else "drain-diff"]
+    let tags := tags ++ drain
+    if cli && shape != "ok" then ⟨.tie, tags, "cmd/consensus.go: output of a failing run: " ++ shape⟩ else
+    match consensusItems id items c with
+    | .unsupported => ⟨.pass, "skip-unsupported" :: tags, ""⟩
+    | .err w =>
+      let want := if cli && w.startsWith "input:" then "err:input" else "err:" ++ w
+      let got := if cli && cls.startsWith "err:input" then "err:input" else (unescape cls).getD cls
+      if w == "dup" && icls == "err" then ⟨.pass, "model-err-dup" :: tags, ""⟩
+      else if got == want then ⟨.pass, ("model-err-" ++ ((w.splitOn ":").headD "")) :: tags, ""⟩
+      else ⟨.tie, tags, "model: " ++ want ++ ", implementation: " ++ cls⟩
+    | _ => ⟨.tie, tags, "the model accepts a collection with an error record"⟩
+
 def parseRes (cls res : String) : Option (Option T) :=
   if baseCls cls == "ok" then (T.undump res).map some else some none
 
@@ -173,6 +214,27 @@ def handle (op : String) (f : List String) : Verdict :=
            | .fin c => judge ([kind] ++ modeTags) c floorGo ts cls r
            | t => judgeNonFinite ([kind] ++ modeTags) t ts cls)
     | _, _, _, _ => bad "C09.clif fields"
+  | "items", [kind, cs, fl, itemsS, cls, res, consumed, shape] =>
+    match parseRat? cs, fl.toInt?, parseItems itemsS, parseRes cls res with
+    | some c, some floorGo, some items, some r =>
+      if items.any Item.isBad then judgeItems kind c items cls consumed shape
+      else
+        -- no error record: the plain run, with the two extra observations
+        let v := judge [kind, "items", "bad-records-0"] c floorGo (itemTrees items) cls r
+        let extra := (if kind.startsWith "cli" then [] else
+          [if consumed.toNat? == some (consumedItems items c) then "drain-exact" else "drain-diff"])
+        if v.status == .pass && kind.startsWith "cli" && shape != "ok" then
+          ⟨.tie, v.tags, "cmd/consensus.go: output format: " ++ shape⟩
+        else { v with tags := v.tags ++ extra }
+    | _, _, _, _ => bad "C09.items fields"
+  | "hist", [kind, cs, fl, _orig, hist, cls, res, inputs] =>
+    -- input trees with a history (indexed, then relabelled / re-rooted / grafted through the API): the
+    -- collection is what Consensus received (`inputs`, dumped after the history)
+    match parseRat? cs, fl.toInt?, parseDumps inputs, parseRes cls res with
+    | some c, some floorGo, some ts, some r =>
+      judge ([kind, "hist"] ++ tagIf (hist.contains 'P') "hist-relabel" ++ tagIf (hist.contains 'R') "hist-reroot" ++
+        tagIf (hist.contains 'G') "hist-graft") c floorGo ts cls r
+    | _, _, _, _ => bad "C09.hist fields"
   | "inv", [kind, cs, fl, dumpsA, clsA, resA, dumpsB, clsB, resB] =>
     match parseRat? cs, fl.toInt?, parseDumps dumpsA, parseRes clsA resA, parseDumps dumpsB, parseRes clsB resB with
     | some c, some _, some a, some ra, some b, some rb =>
